@@ -13,6 +13,21 @@
 // detect C++20 features
 #include <version>
 
+#ifdef ADA_URL_ADA_VERIF
+#ifndef ADA_VERIF_HOOKS_DECLARED
+#define ADA_VERIF_HOOKS_DECLARED
+// Verification seams (deterministic simulation). Defined by the harness in
+// /verif/sim; never compiled into a normal build. See /verif/DESIGN.md 2.1.
+#include <cstdint>
+extern "C" {
+void ada_verif_yield(int site) noexcept;             // schedule point
+int ada_verif_buggify(int site) noexcept;            // 1 = take the unusual-but-legal branch
+uint64_t ada_verif_spin_advance(int site) noexcept;  // simulated spin-clock jump
+void ada_verif_probe(int site) noexcept;             // reach counter
+}
+#endif  // ADA_VERIF_HOOKS_DECLARED
+#endif  // ADA_URL_ADA_VERIF
+
 #ifdef _MSC_VER
 #define ADA_VISUAL_STUDIO 1
 /**
